@@ -227,7 +227,6 @@ package field
 //@   modifies *e
 //@   returns e
 
-//@ declare fpow(F, Int) F
 //@ declare issq(F) Bool
 //@ lemma fermat_inv(x) {lean: Secp.fermat_inv}: fpow(x, P - 2) == finv(x)
 
